@@ -61,12 +61,11 @@ const (
 )
 
 // used to ref object,list,map
-type _refElem struct {
-	// record the kind of target, objects are the same only if the address and kind are the same
+// _refKey identifies an encoded container: objects are the same only if the address and kind are the same
+// (the address of an array or struct equals the address of its first element or field)
+type _refKey struct {
+	addr unsafe.Pointer
 	kind reflect.Kind
-
-	// ref index
-	index int
 }
 
 func refTag(tag byte) bool {
@@ -86,19 +85,22 @@ func (e *Encoder) checkEncodeRefMap(v reflect.Value) (int, bool) {
 	var (
 		kind reflect.Kind
 		addr unsafe.Pointer
+		tgt  reflect.Value
 	)
 
 	if v.Kind() == reflect.Ptr {
 		for v.Elem().Kind() == reflect.Ptr {
 			v = v.Elem()
 		}
-		kind = v.Elem().Kind()
+		tgt = v.Elem()
+		kind = tgt.Kind()
 		if kind == reflect.Slice || kind == reflect.Map {
-			addr = unsafe.Pointer(v.Elem().Pointer())
+			addr = unsafe.Pointer(tgt.Pointer())
 		} else {
 			addr = unsafe.Pointer(v.Pointer())
 		}
 	} else {
+		tgt = v
 		kind = v.Kind()
 		switch kind {
 		case reflect.Slice, reflect.Map:
@@ -108,17 +110,24 @@ func (e *Encoder) checkEncodeRefMap(v reflect.Value) (int, bool) {
 		}
 	}
 
-	if elem, ok := e.refMap[addr]; ok {
-		// the array addr is equal to the first elem, which must ignore
-		if elem.kind == kind {
-			// fmt.Printf("-----> find ref: %d, %p, %v, %v\n", elem.index, addr, kind, v)
-			return elem.index, ok
-		}
+	// the decoder numbers every list, map and object it reads: do the same here
+	n := e.refCount
+
+	// a nil container and a zero-length slice have no address of their own (nil, or the zero-size base shared
+	// by every empty allocation): they take a number but are never referred back to
+	if addr == nil || (kind == reflect.Slice && tgt.Len() == 0) {
+		e.refCount++
 		return 0, false
 	}
 
-	n := len(e.refMap)
-	e.refMap[addr] = _refElem{kind, n}
+	key := _refKey{addr, kind}
+	if index, ok := e.refMap[key]; ok {
+		// fmt.Printf("-----> find ref: %d, %p, %v, %v\n", index, addr, kind, v)
+		return index, true
+	}
+
+	e.refMap[key] = n
+	e.refCount++
 	// fmt.Printf("---> add ref: %d, %p, %v, %v\n", n, addr, kind, v)
 	return 0, false
 }
